@@ -5,6 +5,7 @@
 From Coq Require Import ZArith List Bool.
 From BV Require Import Lib.Cases Model.LaxSem Model.Restart Model.Pool
      Proofs.PoolJobs Proofs.PoolInv Proofs.PoolTick Proofs.PoolCor.
+From BV Require Import Proofs.PoolHist.
 From BV Require Import Proofs.PoolRefuted.
 From BV Require Gen.G_pool_shape.
 From BV Require Import Proofs.PoolSup.
@@ -110,6 +111,39 @@ Theorem C04_drain_loop_reports_losses_like_a_pass : forall s,
     jobs (fst (do_join_shutdown s)) = jobs (fst (do_tick s)).
 Proof. exact join_shutdown_jobs. Qed.
 Print Assumptions C04_drain_loop_reports_losses_like_a_pass.
+
+(* "conversely no job is reported lost unless the worker ... really exited", over whole
+   histories in which acknowledgements come from workers of the pool (and, for the second form,
+   each job is acknowledged once, as a real worker does): a marked job's marker carries the exit
+   status of a worker that has exited and left the pool list -- its own worker *)
+Theorem C04_marked_lost_worker_exited : forall c tr j x t st,
+    acks_from_pool c tr -> get_job (run c tr) j = Some x -> kind x = KApply -> worker_lost x = Some (t, st) ->
+    exists p, in_pool (run c tr) p = false /\ exited (run c tr) p = true /\ st = exit_of (run c tr) p.
+Proof. exact marked_lost_worker_exited. Qed.
+Print Assumptions C04_marked_lost_worker_exited.
+
+Theorem C04_marked_lost_owner_exited : forall c tr j x t st,
+    acks_from_pool c tr -> acks_once c tr ->
+    get_job (run c tr) j = Some x -> kind x = KApply -> worker_lost x = Some (t, st) ->
+    exists p, In p (wp x) /\ in_pool (run c tr) p = false /\ exited (run c tr) p = true
+              /\ st = exit_of (run c tr) p.
+Proof. exact marked_lost_owner_exited. Qed.
+Print Assumptions C04_marked_lost_owner_exited.
+
+(* the other half: an unmarked, unresolved, cached job's worker IS in the pool *)
+Theorem C04_unmarked_owner_in_pool : forall c tr j x p,
+    acks_from_pool c tr -> get_job (run c tr) j = Some x -> kind x = KApply ->
+    incache x = true -> ready x = false -> worker_lost x = None -> In p (wp x) ->
+    in_pool (run c tr) p = true.
+Proof. exact unmarked_owner_in_pool. Qed.
+Print Assumptions C04_unmarked_owner_in_pool.
+
+(* a worker that has exited and been reaped stays gone, with the same status, in every continuation
+   (pids are never reused by the model; the exit status is written once) *)
+Theorem C04_exited_worker_stays_gone : forall c tr tr' p st,
+    gone (run c tr) p st -> gone (run c (tr ++ tr')) p st.
+Proof. exact exited_worker_stays_gone. Qed.
+Print Assumptions C04_exited_worker_stays_gone.
 
 (* ---- what the pinned tree does NOT satisfy (known findings, re-detected on every run from the
    same histories in corpus/pool.json): each is refuted in the model by a concrete history *)
